@@ -22,8 +22,8 @@ one() {
   ps="$props"; [ -z "$ps" ] && ps=$(python3 - "$d/patch.diff" <<'PY'
 import re,sys
 m=[('pkg/cpuallocator','C08 C01'),('pkg/resmgr/lib/memory','C06 C07 C04'),('cmd/plugins/topology-aware','C01 C03 C04 C09 C12 C13 C16'),
-   ('cmd/plugins/balloons','C02 C09 C12 C13 C19'),('pkg/resmgr/cache','C05 C10 C11 C14 C18 C19 C20'),('pkg/resmgr/','C05 C11 C13 C14 C15'),
-   ('pkg/kubernetes','C20 C03'),('pkg/agent','C17 C14'),('pkg/apis/resmgr','C19 C14'),('pkg/apis/config','C19 C12 C02'),
+   ('cmd/plugins/balloons','C02 C09 C12 C13 C19'),('pkg/resmgr/cache','C05 C10 C11 C14 C15 C18 C19 C20'),('pkg/resmgr/','C05 C11 C13 C14 C15'),
+   ('pkg/kubernetes','C20 C03'),('pkg/agent','C17 C14 C15'),('pkg/apis/resmgr','C19 C14'),('pkg/apis/config','C19 C12 C02'),
    ('cmd/plugins/memory-qos','C14 C18'),('cmd/plugins/memtierd','C14 C18'),('cmd/plugins/sgx-epc','C14 C18'),('pkg/sysfs','C16')]
 out=[]
 for l in open(sys.argv[1]):
